@@ -14,7 +14,9 @@ RULE = ("One probe field `probe(arg: T [= default]): Int` plus a FIELD directive
         "JSON kind incl. 32-bit boundary integers, or structurally wrong (null for non-null, unknown enum name, non-string "
         "for enum, object/array for scalar or enum, scalar for input object, unknown / missing input field); presence "
         "provided / omitted / explicit null; routes: inline literal, whole variable (with and without variable default), "
-        "variable nested in a list/object literal; plus coerce_value / value_from_ast driven directly. Oracle: "
+        "variable nested in a list/object literal; the same field declared by two implementations of one interface with "
+        "their own defaults / python names / extra optional argument, selected once and executed against both in drawn "
+        "order; plus coerce_value / value_from_ast driven directly. Oracle: "
         "conformance predicate on received kwargs; natural values accepted with kwargs equal to the reference "
         "coercion; structurally wrong values rejected before the resolver runs; literal route == variable route. "
         "Non-trivial: T has a wrapper or an input object, or the value contains a boundary integer; distinct = (T, default, value, mode, route).")
@@ -390,6 +392,7 @@ def run_case(case, ctx=None):
     if cls == "natural" and "literal" in seen and "variable" in seen and RX.canon(seen["literal"]) != RX.canon(seen["variable"]):
         vios.append(("C07/route-divergence/%s" % _diff_class(spec_p, t, seen["literal"].get("py_arg", "<absent>"), seen["variable"].get("py_arg", "<absent>")),
                      "literal=%r variable=%r type=%s value=%r" % (seen["literal"], seen["variable"], tstr, v)))
+    vios += implementers_phase(case, spec, t, tstr, cls, ctx)
     # utility functions driven directly
     pyt = _lib_type(schema, t)
     for name, call in (("coerce_value", lambda: coerce_value(GS.to_json_var(v), pyt)),
@@ -418,6 +421,100 @@ def run_case(case, ctx=None):
                 vios.append(("C07/%s/wrong-value/%s" % (name, _diff_class(spec_p, t, got, want)), "got=%r expected=%r type=%s value=%r" % (got, want, tstr, v)))
         elif cls in ("wrong", "out-of-range") and ok:
             vios.append(("C07/%s/accepts-invalid-value/%s" % (name, cls), "got=%r type=%s value=%r" % (got, tstr, v)))
+    return vios
+
+
+def implementers_phase(case, spec, t, tstr, cls, ctx=None):
+    """interface ProbeI { probe(arg: T [= d1]) } implemented by PA (same definition) and PB (own default, python name,
+    possibly an extra optional argument); one selection `probes { probe ... }` executed against both in drawn order"""
+    from py_gql import graphql_blocking
+    impl = case.get("impl")
+    if not impl:
+        return []
+    v = case["value"]
+    s = GS.Spec(json.loads(json.dumps(spec)))
+    defs = {"PA": (case["has_default"], case.get("default"), "py_arg"), "PB": (impl["has_default2"], impl["default2"], "py_b")}
+
+    def arg(tn=None):
+        has, d, py = defs[tn] if tn else defs["PA"]
+        a = {"name": "arg", "type": tstr}
+        if has:
+            a["default"] = d
+        if tn:
+            a["python_name"] = py
+        return a
+
+    def fld(tn=None):
+        args = [arg(tn)]
+        if tn == "PB" and impl["extra"]:
+            args.append({"name": "extra", "type": "Int", "default": 7})
+        return {"name": "probe", "type": "Int", "args": args, "desc": None, "deprecated": None}
+
+    s["types"]["ProbeI"] = {"kind": "interface", "name": "ProbeI", "desc": None, "fields": [fld()]}
+    for tn in ("PA", "PB"):
+        s["types"][tn] = {"kind": "object", "name": tn, "interfaces": ["ProbeI"], "desc": None, "fields": [fld(tn)]}
+    q = s["types"][s["query"]]
+    q["fields"] = list(q["fields"]) + [{"name": "probes", "type": "[ProbeI!]", "args": [], "desc": None, "deprecated": None}]
+    s["order"] = list(s["order"]) + ["ProbeI", "PA", "PB"]
+    calls = []
+
+    def mk(tn):
+        def probe(root, ctx_, info, **kw):
+            calls.append((tn, kw))
+            return 1
+        return probe
+
+    resolvers = {}
+    for tn in s.objects():
+        for fd in s.fields(tn):
+            resolvers[(tn, fd["name"])] = H.make_resolver(tn, fd)
+    resolvers[("PA", "probe")], resolvers[("PB", "probe")] = mk("PA"), mk("PB")
+    order = ["PA" if i == 0 else "PB" for i in impl["order"]]
+    resolvers[(s["query"], "probes")] = lambda root, ctx_, info, **kw: [{"__typename__": tn} for tn in order]
+    schema = GS.build_code(s, resolvers)
+    vios = []
+    routes = []
+    if t[0] != "nn" or case["has_default"]:
+        routes.append(("literal", "omitted"))
+    if cls == "natural":
+        routes += [("literal", "provided"), ("variable", "provided")]
+    for route, mode in routes:
+        text, variables = request_for(route, tstr, mode, v)
+        text = text.replace(" @probe(arg: $v)", "").replace(" @probe(arg: %s)" % GS.lit(v), "").replace(" @probe", "")
+        text = text.replace("{ probe", "{ probes { probe", 1) + " }"
+        del calls[:]
+        try:
+            res = graphql_blocking(schema, text, variables=variables, context=Recorder())
+        except Exception as e:  # noqa
+            vios.append(("C07/implementers/request-raises/%s@%s" % (type(e).__name__, H.frame_of(e)), "text=%s: %r" % (text, e)))
+            continue
+        tag = "route=%s mode=%s text=%s variables=%s order=%r" % (route, mode, text, json.dumps(variables), order)
+        want_calls = []
+        ok = True
+        for tn in order:
+            has, d, py = defs[tn]
+            exp = expected(s, t, tstr, d, has, route, mode, v, None, False)
+            if exp[0] != "kwargs":
+                ok = False
+                break
+            want = {(py if k == "arg" else k): x for k, x in exp[1].items()}
+            if tn == "PB" and impl["extra"]:
+                want["extra"] = 7
+            want_calls.append((tn, want))
+        if not ok:
+            continue
+        if ctx is not None:
+            ctx.event("implementers:%s/%s" % (route, mode))
+            if len(set(order)) == 2:
+                ctx.event("implementers-both-types-in-one-list")
+        if len(calls) != len(want_calls):
+            vios.append(("C07/implementers/resolver-not-invoked", "calls=%r errors=%r ; %s" % (calls, [str(e)[:120] for e in res.errors[:2]], tag)))
+            continue
+        for (tn, got), (_, want) in zip(calls, want_calls):
+            if RX.canon(got) != RX.canon(want):
+                vios.append(("C07/implementers/wrong-argument-value/%s" % _diff_class(s, t, got.get(defs[tn][2], "<absent>"), want.get(defs[tn][2], "<absent>")),
+                             "%s received=%r expected=%r ; %s" % (tn, got, want, tag)))
+                break
     return vios
 
 
@@ -585,8 +682,17 @@ def cases(draw):
         nested = nested_literal(draw, spec, t, v)
         if nested:
             routes.append(("nested", "provided"))
+    # the same field declared by two implementations of one interface with their own argument definitions
+    has_default2 = draw(st.integers(0, 2)) != 0
+    default2 = None
+    if has_default2:
+        default2 = GS.gen_input_value(draw, spec, t, 1, boundary)
+        if not GS.conforms_null(spec, t, default2):
+            default2 = GS.gen_nonnull(draw, spec, t, 1)
+    impl = {"has_default2": has_default2, "default2": default2, "extra": draw(st.booleans()),
+            "order": draw(st.lists(st.integers(0, 1), min_size=2, max_size=4))}
     return {"spec": spec, "type": tstr, "has_default": has_default, "default": default, "value": v, "kind": kind,
-            "has_var_default": has_var_default, "var_default": var_default, "routes": routes, "nested": nested}
+            "has_var_default": has_var_default, "var_default": var_default, "routes": routes, "nested": nested, "impl": impl}
 
 
 def named_is(spec, t, n):
